@@ -13,6 +13,7 @@ var hostileStmts = []string{
 	"<<declare $d = wipe()>>", "<<declare $n = retype(\"n\")>>", "<<call wipe()>>", "<<call retype(\"b\")>>", "<<call drop(\"s\")>>",
 	"line {$n} and {wipe()} and {$n}", "line {retype(\"n\")} {$n + 1}", "line {$s}{drop(\"s\")}{$s}", "line {snapf()} {$m}",
 	"<<cmd {wipe()} {$n}>>", "<<cmd {$n} {drop(\"n\")}>>", "<<jump {string(wipe()) + \"\"}>>", "<<jump A>>", "<<jump Start>>",
+	"<<set $n = rewind()>>", "line {rewind()} {$n}", "<<if rewind() > 0>>\n    inside\n<<endif>>", "-> r {rewind()}\n    body\n-> s\n    <<set $n = rewind()>>",
 	"<<set $n = 1>>", "<<set $s = \"a\">>", "<<set $b = true>>", "<<set $m = 2>>", "plain line", "<<stop>>",
 	"<<if wipe() > 0 and $b>>\n    inside {$n}\n<<endif>>", "<<if $b>>\n    <<set $n += drop(\"n\")>>\n<<elseif retype(\"b\") > 0>>\n    other\n<<else>>\n    {$b}\n<<endif>>",
 	"-> one {wipe()} <<if $b>>\n    <<set $n += 1>>\n-> two {$n} <<if retype(\"b\") > 0>>\n    picked {$s}\n-> three <<if $b>>",
